@@ -261,7 +261,37 @@ def parse_out(lines):
 
 
 # ---------------------------------------------------------------------------------------------
-def op_args(scen, root):
+def mixers():
+    import hashlib
+    out = []
+    for key in (b"kismet: primary shard mixer", b"kismet: secondary shard mixer"):
+        d = hashlib.sha256(key).digest()
+        out.append((int.from_bytes(d[0:8], "little") | 1, int.from_bytes(d[8:16], "little")))
+    return out
+
+
+def shard_ids(h1, h2, n):
+    (m1, a1), (m2, a2) = mixers()
+    p = (n * ((h1 * m1 + a1) % (1 << 64))) >> 64
+    s = (n * ((h2 * m2 + a2) % (1 << 64))) >> 64
+    if s == p:
+        s = s + 1 if s + 1 < n else 0
+    return p, s
+
+
+def hashes_for(p, s, n):
+    """Key hashes whose documented mapping gives candidate shards (p, s) for n shards."""
+    for h1 in range(0, 4096):
+        for h2 in range(0, 64):
+            if shard_ids(h1, h2, n) == (p, s):
+                return h1, h2
+    raise RuntimeError("no hashes found")
+
+
+STACK_OPS = {0: "get", 1: "touch", 2: "ensure", 3: "gou", 4: "set", 5: "put", 6: "set_temp", 7: "put_temp"}
+
+
+def op_args(scen, root, populate=None):
     """kvreplay command line for the scenario's operation (None if this opcode has no direct native counterpart)."""
     op = scen["op"]
     code = op["code"]
@@ -271,8 +301,39 @@ def op_args(scen, root):
     if code in (1, 2, 3, 4):
         name = {1: "get", 2: "touch", 3: "set", 4: "put"}[code]
         return ["plain", name, w, cap, "ka"] + ([src] if code >= 3 else [])
+    if code in (10, 11):
+        return ["raw", "update" if code == 10 else "touchins", os.path.join(w, ".kismet_temp", "u0"), os.path.join(w, "ka")]
+    if code == 12:
+        return ["raw", "touch", os.path.join(w, "ka")]
     if code == 15:
         return ["prune", w, 0]
+    if code in (20, 21, 22, 23):
+        p, s2 = op["a0"], op["a1"]
+        h1, h2 = hashes_for(p, s2, 3)
+        capn = op["a2"] if op["a2"] else 3000
+        name = {20: "get", 21: "touch", 22: "set", 23: "put"}[code]
+        return ["sharded", name, os.path.join(root, "s"), 3, max(capn * 3, 3), "ka", h1, h2] + ([src] if code >= 22 else [])
+    if code == 30:
+        bits = op["a0"]
+        writer, readers, sop, checker, sync = bits & 15, (bits >> 4) & 15, (bits >> 8) & 255, (bits >> 16) & 15, (bits >> 20) & 1
+        wspec = "none" if writer == 0 else ("plain:%s:100" % w if writer == 1 else "sharded:%s:2:100" % os.path.join(root, "s"))
+        rspec = "-" if readers == 0 else ",".join("plain:%s" % os.path.join(root, d) for d in ["r", "q"][:readers])
+        cspec = {0: "none", 1: "bytes", 2: "panic"}[checker]
+        h1, h2 = hashes_for(0, 1, 2)
+        args = ["stack", wspec, rspec, cspec, sync, STACK_OPS[sop], "ka", h1, h2]
+        action = {0: "accept", 1: "promote", 2: "replace"}.get(op.get("a3"), "promote")
+        pop = populate or {0: "value-70", 1: "!notfound", 2: "!error"}.get(op.get("a4"), "value-70")
+        if sop == 2:
+            args += [pop]
+        elif sop == 3:
+            args += [action, pop]
+        elif sop in (4, 5):
+            args += [src]
+        elif sop in (6, 7):
+            tdir = os.path.join(w, ".kismet_temp") if writer == 1 else (os.path.join(root, "s", ".kismet_0000", ".kismet_temp") if writer == 2 else os.path.join(root, "x"))
+            os.makedirs(tdir, exist_ok=True)
+            args += [tdir, "value-70"]
+        return args
     return None
 
 
@@ -286,95 +347,357 @@ def strace_calls(lines, names):
     return out
 
 
-# --- native counterparts of KV assertions -----------------------------------------------------------
-def o_dotfile_untouched(scen, nat, msg):
-    """C17: prune(dir, 0) on the scenario's directory must leave the application dot-file alone."""
+def full_strace(nat, args, profile):
+    """Whole-process strace (with markers) -> list of (syscall name, line)."""
+    slog = tempfile.mktemp(prefix="kvr-strace-")
+    cmd = ["strace", "-f", "-y", "-o", slog, "-e", "trace=%file,%desc,fsync,fdatasync", nat.bins[profile]] + [str(a) for a in args]
+    subprocess.run(cmd, stdout=subprocess.PIPE, stderr=subprocess.PIPE, timeout=120)
+    lines = open(slog, errors="replace").read().splitlines() if os.path.exists(slog) else []
+    if os.path.exists(slog):
+        os.remove(slog)
+    out = []
+    for ln in lines:
+        m = re.match(r"^\d+\s+(\w+)\(", ln)
+        if m:
+            out.append((m.group(1), ln))
+    return out
+
+
+def fault_injection(scen, nat, args, profile, setup):
+    """strace arguments that make the scenario's failing call fail natively (two passes: the first
+    counts how many calls of that kind happen before the operation starts)."""
+    ft = scen.get("fault")
+    if not ft:
+        return []
+    names = SYSCALLS.get(ft["kind"], [])
+    if not names:
+        return None
     root = nat.sandbox()
     try:
+        setup(root)
+        calls = full_strace(nat, args(root), profile)
+    finally:
+        shutil.rmtree(root, ignore_errors=True)
+    begin = next((i for i, (n, ln) in enumerate(calls) if "kvreplay-marker-begin" in ln), None)
+    if begin is None:
+        return None
+    inside = [(n, ln) for (n, ln) in calls[begin + 1:] if n in names and "kvreplay-marker" not in ln]
+    if len(inside) < ft["occurrence"] or ft["occurrence"] < 1:
+        return None
+    target = inside[ft["occurrence"] - 1][0]
+    before = sum(1 for (n, ln) in calls[:begin + 1] if n == target)
+    nth_inside = sum(1 for (n, ln) in inside[:ft["occurrence"]] if n == target)
+    err = {5: "EIO", 13: "EACCES", 28: "ENOSPC", 116: "ESTALE", 20: "ENOTDIR", 24: "EMFILE", 18: "EXDEV"}.get(ft["errno"], "EIO")
+    return ["-e", "inject=%s:error=%s:when=%d" % (target, err, before + nth_inside)]
+
+
+# --- native counterparts of KV assertions -----------------------------------------------------------
+def both_profiles(fn):
+    out = {}
+    for profile in ("debug", "release"):
+        out[profile] = fn(profile)
+    return out
+
+
+def run_scenario(scen, nat, profile, strace=None, with_fault=False, populate=None, tweak=None):
+    """Materialise the scenario, run its own operation, observe. -> dict or None"""
+    def setup(root):
         nat.materialise(root, scen)
+        if tweak:
+            tweak(root)
+    inj = []
+    if with_fault and scen.get("fault"):
+        inj = fault_injection(scen, nat, lambda r: op_args(scen, r, populate), profile, setup)
+        if inj is None:
+            return None
+    root = nat.sandbox()
+    try:
+        setup(root)
+        args = op_args(scen, root, populate)
+        if args is None:
+            return None
         before = snapshot(root)
-        dots = [p for p in before if os.path.basename(p).startswith(".") and not os.path.basename(p).startswith(".kismet") and before[p]["kind"] == "file"]
-        res = {}
-        bad = []
-        for profile in ("debug", "release"):
-            r2 = nat.sandbox()
-            nat.materialise(r2, scen)
-            b2 = snapshot(r2)
-            out = nat.run(["prune", os.path.join(r2, "w"), 0], profile=profile)
-            a2 = snapshot(r2)
-            for p in dots:
-                if p not in a2 or a2[p]["mtime_ns"] != b2[p]["mtime_ns"] or a2[p]["content"] != b2[p]["content"]:
-                    bad.append((profile, p, "deleted" if p not in a2 else "altered"))
-            res[profile] = out["out"]
-            shutil.rmtree(r2, ignore_errors=True)
-        return dict(reproduced=len(bad) >= 2, detail="raw_cache::prune(dir, 0): %r; output %r" % (bad, res),
-                    signature=dict(op="prune", victim="dot-file", what="application dot-file removed by maintenance"))
+        r = nat.run(args, profile=profile, strace=(strace or []) + inj if (strace is not None or inj) else None)
+        after = snapshot(root)
+        return dict(out=parse_out(r["out"]), raw=r["out"], before=before, after=after, strace=r["strace"], args=[str(a).replace(root, "<root>") for a in args],
+                    injected=inj)
     finally:
         shutil.rmtree(root, ignore_errors=True)
 
 
-def run_op_both(scen, nat, strace=None, tweak=None):
-    """Materialise + run the scenario's own operation in both profiles. -> {profile: dict(out, before, after, strace)}"""
-    res = {}
+def verdict(bad, scen, what, ok_detail):
+    return dict(reproduced=len(bad) >= 2, detail="; ".join("%s: %s" % b for b in bad) or ok_detail,
+                signature=dict(op=scen["op"]["code"], what=what))
+
+
+def o_dotfile_untouched(scen, nat, msg):
+    """C17: prune(dir, 0) on the scenario's directory must leave the application dot-file alone."""
+    bad = []
     for profile in ("debug", "release"):
         root = nat.sandbox()
         try:
             nat.materialise(root, scen)
-            if tweak:
-                tweak(root)
-            args = op_args(scen, root)
-            if args is None:
-                return None
-            before = snapshot(root)
-            r = nat.run(args, profile=profile, strace=strace)
-            after = snapshot(root)
-            res[profile] = dict(out=parse_out(r["out"]), raw=r["out"], before=before, after=after, strace=r["strace"], root=root)
+            b = snapshot(root)
+            dots = [p for p in b if os.path.basename(p).startswith(".") and not os.path.basename(p).startswith(".kismet") and b[p]["kind"] == "file"]
+            nat.run(["prune", os.path.join(root, "w"), 0], profile=profile)
+            a = snapshot(root)
+            for p in dots:
+                if p not in a or a[p]["mtime_ns"] != b[p]["mtime_ns"] or a[p]["content"] != b[p]["content"]:
+                    bad.append((profile, "%s %s by raw_cache::prune(dir, 0)" % (p, "deleted" if p not in a else "altered")))
         finally:
             shutil.rmtree(root, ignore_errors=True)
-    return res
+    return verdict(bad, scen, "application dot-file removed by maintenance", "dot-files untouched natively")
 
 
 def o_readonly_before_visible(scen, nat, msg):
-    """C02/C03/C01: at the publishing call (rename/link onto the key name) the file must already be read-only."""
-    res = run_op_both(scen, nat, strace=[])
-    if res is None:
-        return None
+    """C01/C02/C03: at the publishing call (rename/link onto the key name) the file must already be read-only."""
     bad = []
-    for profile, r in res.items():
+    for profile in ("debug", "release"):
+        r = run_scenario(scen, nat, profile, strace=[])
+        if r is None:
+            return None
         lines = r["strace"]
-        pubs = [(i, ln) for (i, ln) in strace_calls(lines, ["rename", "renameat", "renameat2", "link", "linkat"]) if "/w/ka" in ln and "= 0" in ln]
+        pubs = [(i, ln) for (i, ln) in strace_calls(lines, ["rename", "renameat", "renameat2", "link", "linkat"]) if "/ka" in ln and "= 0" in ln]
         chmods = [(i, ln) for (i, ln) in strace_calls(lines, ["chmod", "fchmodat", "fchmod"]) if "= 0" in ln]
-        srcmode = next((f["mode"] for f in scen["files"] if f["path"] == "x/u0"), 0)
+        srcmode = max([f["mode"] for f in scen["files"] if f.get("own")] or [0])
         if pubs and (srcmode & 0o222):
-            first_pub = pubs[0][0]
-            if not any(i < first_pub for (i, _l) in chmods):
-                bad.append((profile, "publishing call precedes chmod: " + pubs[0][1][:120]))
-    return dict(reproduced=len(bad) >= 2, detail="; ".join("%s: %s" % b for b in bad) or "chmod precedes publication natively",
-                signature=dict(op=scen["op"]["code"], what="published before being made read-only"))
+            if not any(i < pubs[0][0] for (i, _l) in chmods):
+                bad.append((profile, "publishing call precedes chmod: " + pubs[0][1][:110]))
+    return verdict(bad, scen, "published before being made read-only", "chmod precedes publication natively")
 
 
 def o_fresh_not_accessed(scen, nat, msg):
-    """C09: a freshly written entry must not look 'recently used' on a filesystem with coarse (1-2 s) timestamps:
-    its atime must be clearly (>= 2 s) earlier than its mtime."""
-    res = run_op_both(scen, nat)
-    if res is None:
-        return None
+    """C09: a freshly written entry must not look 'recently used' on a filesystem with coarse (1-2 s)
+    timestamps: its atime must be clearly (>= 2 s) earlier than its mtime."""
     bad = []
-    for profile, r in res.items():
+    for profile in ("debug", "release"):
+        r = run_scenario(scen, nat, profile)
+        if r is None:
+            return None
         e = r["after"].get("w/ka")
         if e and r["out"]["result"] == "ok" and e["content"] == "value-9":
             if e["mtime_ns"] - e["atime_ns"] < 2 * 10**9:
                 bad.append((profile, "mtime - atime = %.3f s" % ((e["mtime_ns"] - e["atime_ns"]) / 1e9)))
-    return dict(reproduced=len(bad) >= 2, detail="; ".join("%s: %s" % b for b in bad) or "atime is >= 2 s before mtime natively",
-                signature=dict(op=scen["op"]["code"], what="fresh entry would be marked as used on a coarse-granularity filesystem"))
+    return verdict(bad, scen, "fresh entry would be marked as used on a coarse-granularity filesystem", "atime is >= 2 s before mtime natively")
+
+
+def o_flush_failed_published(scen, nat, msg):
+    """C03: with the flush failing, the new value must not appear under the key."""
+    bad = []
+    for profile in ("debug", "release"):
+        sc = dict(scen)
+        sc["fault"] = dict(kind="fsync", occurrence=1, errno=5)
+        r = run_scenario(sc, nat, profile, strace=[], with_fault=True)
+        if r is None:
+            return None
+        for p, e in r["after"].items():
+            if os.path.basename(p) == "ka" and not p.startswith(("r/", "q/")) and e.get("content") == "value-70":
+                bad.append((profile, "fsync failed (%s) yet %s holds the new value; result=%s" % (r["injected"], p, r["out"]["result"])))
+    return verdict(bad, scen, "publication after a failed flush", "nothing published after the failed flush natively")
+
+
+def o_temp_leak(scen, nat, msg):
+    """C18: after the operation (with the scenario's injected failure) no library temp file is left behind."""
+    bad = []
+    for profile in ("debug", "release"):
+        r = run_scenario(scen, nat, profile, strace=[], with_fault=True)
+        if r is None:
+            return None
+        left = [p for p in r["after"] if "/.kismet_temp/" in p and p not in r["before"]]
+        if left:
+            bad.append((profile, "left behind %r (fault %s, result %s)" % (left, r["injected"], r["out"]["result"])))
+    return verdict(bad, scen, "temporary file leaked after a failed call", "no temp file left natively")
+
+
+def o_two_copies(scen, nat, msg):
+    bad = []
+    for profile in ("debug", "release"):
+        r = run_scenario(scen, nat, profile)
+        if r is None:
+            return None
+        copies = [p for p in r["after"] if os.path.basename(p) == "ka" and p.startswith("s/")]
+        if len(copies) > 1:
+            bad.append((profile, "two copies: %r" % copies))
+    return verdict(bad, scen, "two copies of one key in a sharded cache", "one copy natively")
+
+
+def o_checker_bypassed(scen, nat, msg):
+    bad = []
+    for profile in ("debug", "release"):
+        r = run_scenario(scen, nat, profile)
+        if r is None:
+            return None
+        if r["out"]["result"] == "ok" and r["out"]["panic"] is None:
+            bad.append((profile, "call succeeded although copies / populated value differ: %r" % (r["raw"],)))
+    return verdict(bad, scen, "consistency checker not consulted", "call failed natively as required")
+
+
+def o_offset_zero(scen, nat, msg):
+    bad = []
+    for profile in ("debug", "release"):
+        r = run_scenario(scen, nat, profile)
+        if r is None:
+            return None
+        h = r["out"]["handle"]
+        if h and (h.get("offset") != "0" or h.get("access") != "rdonly"):
+            bad.append((profile, "returned handle: %r" % (h,)))
+    return verdict(bad, scen, "returned handle not read-only at offset 0", "handle read-only at offset 0 natively")
+
+
+def o_readonly_root_mutated(scen, nat, msg):
+    """C15: no mutating call may target a read-only root; only atime may change there."""
+    bad = []
+    for profile in ("debug", "release"):
+        r = run_scenario(scen, nat, profile, strace=[])
+        if r is None:
+            return None
+        for p in set(r["before"]) | set(r["after"]):
+            if p.startswith(("r/", "q/")) or p in ("r", "q"):
+                b, a = r["before"].get(p), r["after"].get(p)
+                if b is None or a is None or any(b[k] != a[k] for k in ("mode", "mtime_ns", "nlink", "kind")) or b.get("content") != a.get("content"):
+                    bad.append((profile, "%s changed: %r -> %r" % (p, b, a)))
+        for (_i, ln) in strace_calls(r["strace"], ["utimensat"]):
+            if ("/r/" in ln or "/q/" in ln) and "UTIME_OMIT]" not in ln and "= 0" in ln:
+                bad.append((profile, "mtime written inside a read-only cache: " + ln[:140]))
+        for (_i, ln) in strace_calls(r["strace"], ["rename", "renameat", "renameat2", "link", "linkat", "unlink", "unlinkat", "mkdir", "mkdirat", "chmod", "fchmodat"]):
+            if re.search(r"/(r|q)(/|\")", ln) and "= 0" in ln:
+                bad.append((profile, "mutating call inside a read-only cache: " + ln[:140]))
+    bad = bad[:4]
+    return dict(reproduced=len({b[0] for b in bad}) >= 2, detail="; ".join("%s: %s" % b for b in bad) or "read-only roots untouched natively",
+                signature=dict(op=scen["op"]["code"], what="read-only cache modified"))
+
+
+def o_lists_directory(scen, nat, msg):
+    bad = []
+    for profile in ("debug", "release"):
+        r = run_scenario(scen, nat, profile, strace=[])
+        if r is None:
+            return None
+        g = strace_calls(r["strace"], ["getdents64"])
+        if g:
+            bad.append((profile, "directory listed during a write with no maintenance due: " + g[0][1][:120]))
+    return verdict(bad, scen, "directory listing outside maintenance", "no directory listing natively")
+
+
+def o_peer_put_during_populate(scen, nat, msg):
+    """C04/C13: another participant publishes the key while our populate runs (deterministic interleaving)."""
+    bad = []
+    for profile in ("debug", "release"):
+        root_holder = {}
+        r = None
+        root = nat.sandbox()
+        try:
+            nat.materialise(root, scen)
+            pop = "peerput:%s:value-PEER:value-70" % os.path.join(root, "w")
+            args = op_args(scen, root, populate=pop)
+            if args is None:
+                return None
+            out = nat.run(args, profile=profile)
+            po = parse_out(out["out"])
+            after = snapshot(root)
+            cached = after.get("w/ka", {}).get("content")
+            h = po["handle"] or {}
+            replace = "replace" in [str(a) for a in args]
+            if replace and h.get("content") != "value-70":
+                bad.append((profile, "Replace returned %r, not the newly populated value" % h.get("content")))
+            if not replace and h.get("content") != cached:
+                bad.append((profile, "returned %r while the cache holds %r" % (h.get("content"), cached)))
+        finally:
+            shutil.rmtree(root, ignore_errors=True)
+    return verdict(bad, scen, "value returned under a concurrent put differs from the specified one", "returned value as specified natively")
+
+
+def o_invalid_name_modifies(scen, nat, msg):
+    """C16: operations on rejected names modify nothing (checked on a victim file reachable through the name)."""
+    bad = []
+    for profile in ("debug", "release"):
+        root = nat.sandbox()
+        try:
+            os.makedirs(os.path.join(root, "s", ".kismet_0000"))
+            os.makedirs(os.path.join(root, "s", ".kismet_0001"))
+            os.makedirs(os.path.join(root, "x"))
+            victim = os.path.join(root, "victim")
+            write_file(victim, dict(content=1, mode=0o644, at_s=1000, mt_s=2000))
+            src = os.path.join(root, "x", "u0")
+            for opname in ("set", "put"):
+                write_file(src, dict(content=9, mode=0o600, at_s=3000, mt_s=3000))
+                b = snapshot(root)
+                h1, h2 = hashes_for(0, 1, 3)
+                out = parse_out(nat.run(["sharded", opname, os.path.join(root, "s"), 3, 3, victim, h1, h2, src], profile=profile)["out"])
+                a = snapshot(root)
+                if a["victim"]["atime_ns"] != b["victim"]["atime_ns"] or a["victim"]["mtime_ns"] != b["victim"]["mtime_ns"]:
+                    bad.append((profile, "sharded %s with a rejected (absolute) name re-stamped the file it points to; result %s/%s" % (opname, out["result"], out["kind"])))
+        finally:
+            shutil.rmtree(root, ignore_errors=True)
+    return dict(reproduced=len({b[0] for b in bad}) >= 2, detail="; ".join("%s: %s" % b for b in bad[:2]) or "nothing modified natively",
+                signature=dict(op="sharded set/put", what="operation on an invalid name modified a file"))
+
+
+def o_outside_universe(scen, nat, msg):
+    """C16: the operation must not create or alter anything but the key's own entry (and its source / temp files)."""
+    bad = []
+    for profile in ("debug", "release"):
+        r = run_scenario(scen, nat, profile, strace=[], with_fault=True)
+        if r is None:
+            return None
+        for p in r["after"]:
+            base = os.path.basename(p)
+            if p not in r["before"] and base.startswith(".") and not base.startswith(".kismet"):
+                bad.append((profile, "created %s in the dot-prefixed namespace (fault %s)" % (p, r["injected"])))
+    return verdict(bad, scen, "effect outside the key's own entry", "no effect outside the key's entry natively")
+
+
+def o_temp_age(scen, nat, msg):
+    """C17/C02: maintenance removes temp files older than one hour and leaves younger ones (ages from the scenario)."""
+    bad = []
+    now_s = scen["config"]["now_s"] or 0
+    for profile in ("debug", "release"):
+        root = nat.sandbox()
+        try:
+            w = os.path.join(root, "w")
+            t = os.path.join(w, ".kismet_temp")
+            os.makedirs(t)
+            os.makedirs(os.path.join(root, "x"))
+            real_now = time.time()
+            ages = {}
+            for f in scen["files"]:
+                if f["path"].startswith("w/.kismet_temp/"):
+                    age = now_s - f["mt_s"]
+                    pth = os.path.join(root, f["path"])
+                    open(pth, "w").write("tmp")
+                    os.utime(pth, (real_now - age, real_now - age))
+                    ages[f["path"]] = age
+            src = os.path.join(root, "x", "u0")
+            open(src, "w").write("v")
+            nat.run(["plain", "put", w, 0, "kz", src], profile=profile)
+            for p, age in ages.items():
+                gone = not os.path.exists(os.path.join(root, p))
+                if age < 3590 and gone:
+                    bad.append((profile, "temp file aged %d s (younger than the limit) was removed" % age))
+                if age > 3700 and not gone:
+                    bad.append((profile, "temp file aged %d s (older than the limit) was kept" % age))
+        finally:
+            shutil.rmtree(root, ignore_errors=True)
+    return dict(reproduced=len({b[0] for b in bad}) >= 2, detail="; ".join("%s: %s" % b for b in bad[:2]) or "temp files handled by age natively",
+                signature=dict(op="maintenance", what="temp file removed/kept against the age rule"))
 
 
 ORACLES = [
-    (r"KV-C17: application dot-files", o_dotfile_untouched),
-    (r"KV-C17: application data next to the cache", o_dotfile_untouched),
+    (r"KV-C17: application dot-files|KV-C17: application data next to the cache", o_dotfile_untouched),
+    (r"KV-C17: temp files younger|KV-C02: temp files older", o_temp_age),
+    (r"KV-C03: a failed flush is never followed by publication", o_flush_failed_published),
     (r"KV-C03: files are made read-only before they become visible", o_readonly_before_visible),
     (r"KV-C02: every key-named file is a complete read-only value", o_readonly_before_visible),
     (r"KV-C09: a fresh(ly)? (set|written|inserted) entry is not marked as used", o_fresh_not_accessed),
+    (r"KV-C18: temporary files created by the library are not leaked", o_temp_leak),
+    (r"KV-C11: a sharded cache never holds two copies", o_two_copies),
+    (r"KV-C14: ", o_checker_bypassed),
+    (r"KV-C19: .*offset 0", o_offset_zero),
+    (r"KV-C15: ", o_readonly_root_mutated),
+    (r"KV-C20: outside maintenance a write never lists", o_lists_directory),
+    (r"KV-C13: Replace returns the newly populated value|KV-C04: concurrent ensure calls", o_peer_put_during_populate),
+    (r"KV-C16: an operation on an invalid name modifies nothing", o_invalid_name_modifies),
+    (r"KV-C16: a filesystem call names a path outside", o_outside_universe),
 ]
 
 
